@@ -863,8 +863,18 @@ def discharge_smt2(smt2, timeout_s=20, use_cvc5=True, both=False):
             if len(sl) < 0.8 * len(fs):
                 plan.append(("stage1/z3-qfnra slice%d" % depth, "QF_NRA", min(timeout_s, 3), sl))
                 plan.append(("stage1/z3 slice%d" % depth, None, min(timeout_s, 4), sl))
-    plan += [("stage1/z3-qfnra", "QF_NRA", min(timeout_s, 2), fs), ("stage1/z3", None, timeout_s, fs), ("stage1/z3-qfnra", "QF_NRA", timeout_s, fs)]
+    plan += [("stage1/z3-qfnra", "QF_NRA", min(timeout_s, 2), fs), ("stage1/z3", None, min(timeout_s, 4), fs), ("cvc5-short", None, min(timeout_s, 12), fs),
+             ("stage1/z3", None, timeout_s, fs), ("stage1/z3-qfnra", "QF_NRA", timeout_s, fs)]
     for label, logic, budget, prob in plan:
+        if label == "cvc5-short":
+            # the second back end early and briefly: where z3's tactics are lost it usually decides within seconds
+            if use_cvc5:
+                r2, dt2 = run_cvc5(fs, budget)
+                res["attempts"].append(("stage1/cvc5 (short)", r2, round(dt2, 3)))
+                if r2 == "unsat":
+                    res.update(verdict="unsat", stage=1, backend="cvc5", time=time.time() - t0)
+                    return res
+            continue
         try:
             r1, dt, m1, why = check_formulas(prob, budget * 1000, logic=logic)
             if r1 == "sat" and prob is not fs:
@@ -894,6 +904,15 @@ def discharge_smt2(smt2, timeout_s=20, use_cvc5=True, both=False):
         return res
     if r == "sat":
         cand = model_to_dict(model)
+    # the second back end before z3 is re-seeded: where z3's default tactic is lost, cvc5 usually decides within seconds
+    tried_cvc5 = False
+    if r == "unknown" and use_cvc5:
+        r2, dt2 = run_cvc5(fs, timeout_s)
+        tried_cvc5 = True
+        res["attempts"].append(("stage1/cvc5", r2, round(dt2, 3)))
+        if r2 == "unsat":
+            res.update(verdict="unsat", stage=1, backend="cvc5", time=time.time() - t0)
+            return res
     # retries with other seeds
     if r == "unknown":
         for seed in (1, 7):
@@ -907,7 +926,7 @@ def discharge_smt2(smt2, timeout_s=20, use_cvc5=True, both=False):
         if r == "sat":
             cand = model_to_dict(model)
             arrs = arrays_from_model(model, stats)
-    if use_cvc5 and r != "sat":
+    if use_cvc5 and r != "sat" and not tried_cvc5:
         r2, dt2 = run_cvc5(fs, timeout_s)
         res["attempts"].append(("stage1/cvc5", r2, round(dt2, 3)))
         if r2 == "unsat":
